@@ -446,8 +446,10 @@ class World:
         objs = [o for o in c.live() if o.id != 1]
         if not objs:
             return None
-        # prefer recently created / low ids alternately so some ids churn a lot
         o = objs[r1 % len(objs)]
+        return self._destroy_obj(c, o, r2, rng)
+
+    def _destroy_obj(self, c, o, r2, rng):
         i = self.proto.get(o.iface)
         cl = None
         if i is not None and not i.ambiguous:
@@ -466,6 +468,41 @@ class World:
             c.pending_delete.append(o)
         return cl
 
+    def _act_bind_synth(self, c, r1, r2, rng):
+        """advertise, then bind, a synthetic interface (objects whose events create server-range ids)"""
+        regs = self._registries(c)
+        if not regs:
+            return self._act_get_registry(c, r1, r2, rng)
+        synth = sorted(self.synth)
+        if not synth:
+            return self._act_bind(c, r1, r2, rng)
+        have = [g for g in c.globals if g[1] in self.synth]
+        if not have or (r2 % 5 == 0 and len(have) < len(synth)):
+            iface = synth[r2 % len(synth)]
+            reg = regs[r1 % len(regs)]
+            name = c.next_global
+            c.next_global += 1
+            ver = self.proto[iface].version
+            c.globals.append((name, iface, ver))
+            args = [GArg('u', name, name='name'), GArg('s', iface, name='interface'), GArg('u', ver, name='version')]
+            return self._emit(c, True, reg, 'global', 0, args, 'usu')
+        reg = regs[r1 % len(regs)]
+        name, iface, ver = have[r2 % len(have)]
+        creates, implicit = [], []
+        inc = self._new_object(c, iface, False, implicit)
+        creates.append(inc)
+        args = [GArg('u', name, name='name'), GArg('s', iface), GArg('u', rng.randint(1, ver)),
+                GArg('n', inc, iface=None, typed=False, name='id')]
+        return self._emit(c, False, reg, 'bind', 0, args, 'usun', creates, None, implicit)
+
+    def _act_destroy_server(self, c, r1, r2, rng):
+        """destroy a server-range object (its id becomes free for re-use at once)"""
+        objs = [o for o in c.live() if o.server_range()]
+        if not objs:
+            return self._act_event_new(c, r1, r2, rng)
+        o = objs[r1 % len(objs)]
+        return self._destroy_obj(c, o, r2, rng)
+
     def _act_churn(self, c, r1, r2, rng):
         """one step of a sync / done / delete_id loop: the realistic way one id gets many incarnations"""
         if c.pending_delete:
@@ -477,7 +514,7 @@ class World:
 
 
 ACT_KINDS = ['get_registry', 'sync', 'done', 'delete_id', 'global', 'bind', 'request', 'event',
-             'request_new', 'event_new', 'mention', 'destroy', 'churn']
+             'request_new', 'event_new', 'mention', 'destroy', 'churn', 'bind_synth', 'destroy_server']
 
 CHATTER_TEMPLATES = [
     '', '   ', '\t', 'hello world', 'libEGL warning: DRI2: failed to authenticate',
